@@ -223,6 +223,14 @@ def harnesses(tier, seed):
                           bounds="the x0 block of solve_main, n=1, m=2, up to 3 samples; residuals %s" % ('integers in [-1000,1000] (integer array)' if int_resid else 'reals'),
                           assumptions=["the run ends at x0 (budget or small objective): the residual handed to the result object is a float64 array owned by the solver, "
                                        "so to_dict/from_dict (which rebuild float64 arrays) reproduce it"], nproc=1, max_replays=2))
+    # the evaluation numbers in the result come from Model's per-point storage: every operation that writes it keeps it integer-typed
+    from . import c17
+    for h in c17.harnesses('quick', seed):
+        if h.params['op'] in ('add_new_point', 'change_point') and not h.params.get('with_h') and h.params['npt_so_far'] == h.params['num_pts']:
+            h.name = 'model:' + h.name
+            h.home = 'C17'
+            h.expect = ['C20:%s:evaluation-numbers-stay-integer-typed' % h.params['op']]
+            hs.append(h)
     return hs
 
 
